@@ -111,10 +111,11 @@ theorem std_sortSet_spec2 (s : St) (uniq : Bool) (t0 : TId) (t1 : Option TId) (d
        lclose)
 
 theorem builtinCall2_spec2 (s : St) (b : Builtin) (ts : List TId) (d1 : Nat) (hS : Safe s)
-    (hts : ∀ t ∈ ts, t < s.thunks.size) (har : builtinArityOk b ts.length) :
+    (hts : ∀ t ∈ ts, t < s.thunks.size) (har : builtinArityOk b ts.length) (hb : pureBuiltin b = none) :
     ⦃fun st => ⌜st = s⌝⦄ builtinCall2 cfg rec b ts d1
       ⦃Q2 s (fun v st => ValOk st.thunks.size st.objs.size st.funcs.size v)⦄ := by
   cases b with
+  | pure p => simp [pureBuiltin] at hb
   | length =>
     obtain ⟨t0, rfl⟩ := len1 (arity_plain har (by decide) (by decide))
     rw [show builtinCall2 cfg rec .length [t0] d1 = builtinCall rec .length [t0] d1 from rfl]
